@@ -942,6 +942,52 @@ def native(scratch, kind, impl, fn="EuclideanDistance", n=8, vectors=None, mod=4
 
 # ------------------------------------------------------------------ main
 
+def wrapper_phase(scratch, tier):
+    """The Go wrappers around the kernels (simd/avx, simd/sse *.go), under gosmt: two goroutines
+    call one wrapper at the same time, happens-before race detection on; the assembly kernel is
+    replaced by its memory effect (reads both vectors, writes through its result pointers).
+    Returns (evidence dict, list of (signature, replay path, native result, reproduced))."""
+    import check
+    run = dict(pkg="./index/space", entry="VerifC15Wrappers", bounds="preempt=%d" % (2 if tier == "quick" else 3), unwind=64)
+    summ, rc, err = check.run_gosmt(run, tier, scratch, 900)
+    ev = {"entry": "space.VerifC15Wrappers", "bounds": run["bounds"], "functions": ["simd/avx.{Euclidean,Manhattan,Cosine}Distance", "simd/sse.{Euclidean,Manhattan,Cosine}Distance"],
+          "stub": "assembly kernels replaced by their memory effect (read a[0], b[0]; write every result pointer)"}
+    if summ is None:
+        raise Inconclusive("wrapper harness did not run: %s" % (err or rc))
+    ev.update(paths=summ.get("paths"), status=summ.get("status"), exhaustive=summ.get("exhaustive"), wall_s=summ.get("wall_s"))
+    if not summ.get("exhaustive") or (summ.get("status") or {}).get("engine") or (summ.get("status") or {}).get("unwind"):
+        raise Inconclusive("wrapper harness: exploration not exhaustive (%s)" % summ.get("stop_reason"))
+    out = []
+    seen = set()
+    items = []
+    for v in summ.get("violations") or []:
+        sig = "wrapper:" + check.signature(v)
+        if sig in seen:
+            continue
+        seen.add(sig)
+        path = check.write_replay("C15", run, v)
+        items.append((sig, v, path))
+    by_kind = {}
+    for sig, v, path in items:
+        by_kind.setdefault(v["kind"] == "race", []).append((run["entry"], path))
+    results = {}
+    for is_race, lst in by_kind.items():
+        res, _ = check.native_replay(run["pkg"], lst, scratch, attempts=400000 if is_race else 200000, timeout=120, gomaxprocs1=True, race=is_race)
+        results.update(res)
+    # the Go race detector does not see what the assembly kernel writes: a race on a result
+    # slot shows natively as one caller getting the other's value (the harness' own assertion)
+    again = [(run["entry"], path) for sig, v, path in items if v["kind"] == "race" and not results.get(path, "").startswith("RACE")]
+    if again:
+        res, _ = check.native_replay(run["pkg"], again, scratch, attempts=2000000, timeout=300, gomaxprocs1=True, race=False)
+        for k, r in res.items():
+            results[k] = (results.get(k, "") + " | without -race: " + r).strip(" |")
+    for sig, v, path in items:
+        r = results.get(path, "")
+        ok = r.startswith("RACE") or "FAILED" in r or r.startswith("PANIC") or r.startswith("CRASH")
+        out.append((sig, path, r, ok))
+    return ev, out
+
+
 def run(pid, tier, seed):
     t0 = time.time()
     scratch = tempfile.mkdtemp(prefix="verif-C15-")
@@ -1076,6 +1122,23 @@ def run(pid, tier, seed):
                 print("VIOLATION property=C15 replay=%s" % rp)
                 log("  violation signature:", sig, "| native:", r)
                 exit_code = 1
+        # the Go wrappers (gosmt, race detection)
+        wrappers_ev = None
+        try:
+            wrappers_ev, wres = wrapper_phase(scratch, tier)
+            paths += wrappers_ev.get("paths") or 0
+            for sig, rp, r, ok in wres:
+                attempted += 1
+                sigs.setdefault(sig, []).append({"kind": "wrapper", "replay": rp})
+                if not ok:
+                    inconclusive.append("counterexample %s did not reproduce natively: %s" % (sig, r))
+                    continue
+                reproduced += 1
+                print("VIOLATION property=C15 replay=%s" % rp)
+                log("  violation signature:", sig, "| native:", r)
+                exit_code = 1
+        except Inconclusive as e:
+            inconclusive.append("wrappers: %s" % e)
         if exit_code == 0 and inconclusive:
             exit_code = 2
         for m in inconclusive:
@@ -1088,11 +1151,11 @@ def run(pid, tier, seed):
                 "exhaustive": not inconclusive,
                 "technique": "symbolic execution of the disassembled kernels (objdump of the freshly built test binary) with z3: len and base addresses as 64-bit bit-vector variables, lanes as exact-integer terms; per-lane Float32 lemmas",
                 "bounds": {"len": "1..%d (memory, alignment)" % L, "value_equality_len": "1..%d" % N3, "lane_values": "integers |v|<=64 (cosine |v|<=8): all float32 operations exact for the lengths compared"},
-                "kernels": kernels_ev, "obligations": obligations, "solver_queries": queries, "solver_time_s": round(stats["solver_s"], 2),
+                "kernels": kernels_ev, "go_wrappers": wrappers_ev, "obligations": obligations, "solver_queries": queries, "solver_time_s": round(stats["solver_s"], 2),
                 "symbolic_paths": paths, "instructions_executed": stats["instructions"], "fp_lemmas": lemmas,
                 "violation_signatures": {s: len(v) for s, v in sigs.items()},
                 "native_replays": {"attempted": attempted, "reproduced": reproduced},
-                "outside_bounds": "agreement within a ULP bound for arbitrary finite floats; len above the bound; the Go wrappers' &a[0] on empty slices (C12)",
+                "outside_bounds": "agreement within a ULP bound for arbitrary finite floats; len above the bound; the Go wrappers' &a[0] on empty slices (C12); in the wrapper harness the kernel is a stub with the kernel's memory effect (two concurrent callers, one call each)",
                 "inconclusive": inconclusive,
             },
             "assumptions": ["objdump's decoding of the kernels is trusted (the c2goasm comments in the .s files agree with it)",
